@@ -55,9 +55,18 @@ func verifC34DirectN() int {
 // and every query, real code end to end.
 func VerifC34_allowed() {
 	n := verifConcretize(verifRange("nacls", 0, verifC34DirectN()))
-	store := &clusterACLs{acls: verifC34ACLs(n)}
+	store := &clusterACLs{}
+	qlen := 2
+	if n < 2 {
+		store.acls = verifC34ACLs(n)
+		qlen = verifChoose(3)
+	} else {
+		// two entries end to end (thorough) cost ~76^2 paths per shape: one shape only
+		// (names of 1 and 2 bytes, 2-byte query); all shapes are covered by group B.
+		store.acls = []acl{verifC34ACL(1), verifC34ACL(2)}
+	}
 	princ, host, rtype, op := verifC34Query()
-	name := verifC34Str("q.name", verifChoose(3))
+	name := verifC34Str("q.name", qlen)
 
 	want := verifC34RefAllowed(store.acls, princ, host, name, rtype, op)
 	got := store.allowed(princ, host, name, kmsg.ACLResourceType(rtype), kmsg.ACLOperation(op))
